@@ -372,7 +372,7 @@ def props():
     return sorted(ps)
 
 
-LEVEL = {"C18": "other"}
+LEVEL = {}
 
 
 def write_evidence(prop, tier, seed, hs, results, wall, violations, digest, known_ids):
